@@ -366,6 +366,10 @@ Definition callback (s : sim) (aid kind : Z) (r : record) (mkid : Z) : sim :=
   | _, _ => fail s EIndex
   end.
 
+(* the agent an order / cancel record is about (runner: id2agent[order.agent_id], id2agent[cancel.order.agent_id]) *)
+Definition rec_owner (r : record) (d : Z) : Z :=
+  match r with ROrder o => Match.agent o | Market.RCancel o _ => Match.agent o | RExpire o _ => Match.agent o | RExec _ _ _ _ _ _ _ _ => d end.
+
 (* ---------------- atomic updates at the points where the market changes ---------------- *)
 (* a record is born: the ground-truth event is emitted and the log is handed to the logger (pending) *)
 Definition log_event (s : sim) (r : record) (extra : list ov) : sim := write (emit s (EvTruth r extra)) (EvLog r).
@@ -449,7 +453,7 @@ Definition handle_request (s : sim) (r : request) : sim :=
         | Err e => fail s e
         | Ok (m', rec) =>
           let s := do_accept_cancel s mkid m' rec in
-          let s := callback s ag 2 rec mkid in
+          let s := callback s (rec_owner rec ag) 2 rec mkid in   (* id2agent[cancel.order.agent_id] *)
           let s := guard s (fun s => fire_simple s HCancel false (m_time m') mkid [VZ i]) in
           guard s (fun s => run_round s mkid)
         end
